@@ -64,7 +64,7 @@ pub fn run(case: &Value, ctx: &Ctx) -> Outcome {
             }
             col += n;
         }
-        recs.push(gen::Rec { contig: "chr1".into(), pos: (r + 1) as u64, bad: false, nogt: false, gt });
+        recs.push(gen::Rec { contig: "chr1".into(), pos: (r + 1) as u64, bad: false, nogt: false, short_alt: false, gt });
     }
     let vcf = gen::vcf_text(&cols, &recs, false);
     let arg = cols.iter().zip(&labels).map(|(c, l)| format!("{c}={l}")).collect::<Vec<_>>().join(",");
